@@ -22,7 +22,7 @@ PROP = {'technique': 'property-based testing (rapid) with an independent punch c
                  'one reader goroutine (as quic-go uses the socket)',
                  'a mask collision of SHA-256(key||salt) on the 8 magic bytes (2^-64) is treated as impossible',
                  'binding responses that are not canonical success responses with a usable mapped address (error responses, no address, port 0, trailing bytes, malformed attributes) may go either way'],
- 'tests': [{'name': 'TestVerifC20_Regress_StunReservedBits', 'unit': REALM, 'kind': 'plain', 'known_sig': 'stun-reserved-bits'},
+ 'tests': [{'name': 'TestVerifC20_Regress_StunReservedBits', 'unit': REALM, 'kind': 'plain'},
            {'name': 'TestVerifC20_CodecExhaustive', 'unit': REALM, 'kind': 'plain'},
            {'name': 'TestVerifC20_Codec', 'unit': REALM, 'quick': 60000, 'thorough': 200000, 'shards_thorough': 8},
            {'name': 'TestVerifC20_Demux', 'unit': REALM, 'quick': 12000, 'thorough': 40000, 'shards_thorough': 8},
